@@ -20,6 +20,7 @@ import (
 	"reflect"
 	"sort"
 	"strings"
+	"time"
 	"unsafe"
 
 	"github.com/philpearl/avro"
@@ -186,6 +187,22 @@ func driveRetain(c *driverCtx, run int) {
 	vals := genValues(c.rng, st.typ, n)
 	codec := codecs3[run%3]
 	cfg := rtConfig{Codec: codec, Block: []int{0, 40, 200, 1 << 20}[run%4], Flush: map[int]bool{}}
+	if run%4 == 1 {
+		// few distinct long strings, so that a record's first string often equals an earlier record's last one, and
+		// records that take nothing from their bank in between
+		pool := []string{"the quick brown fox jumps", "over the lazy dog and back", "sphinx of black quartz, judge", ""}
+		pick := func() string { return pool[c.rng.Intn(len(pool))] }
+		for i, v := range vals {
+			if i%5 == 4 {
+				v.Set(reflect.Zero(v.Type()))
+				continue
+			}
+			v.FieldByName("S").SetString(pick())
+			p := pick()
+			v.FieldByName("P").Set(reflect.ValueOf(&p))
+			v.FieldByName("L").Set(reflect.ValueOf([]string{pick(), pick()}))
+		}
+	}
 	large := run%6 == 5
 	if large {
 		// payloads far above any small-buffer threshold, one record per block: whatever the reader hands out must not
@@ -221,14 +238,16 @@ func driveRetain(c *driverCtx, run int) {
 	checkpoint := func(after string) {
 		var idx, ids []int
 		var vs []any
+		zn := []string{}
 		for i, k := range ks {
 			if k.open {
 				idx = append(idx, i+1)
 				vs = append(vs, safeProject(k.v))
 				ids = append(ids, bankID(k.bank))
+				zn = append(zn, zoneNames(k.v))
 			}
 		}
-		checkpoints = append(checkpoints, map[string]any{"after": after, "open": orEmptyInts(idx), "values": orEmpty(vs), "banks": orEmptyInts(ids)})
+		checkpoints = append(checkpoints, map[string]any{"after": after, "open": orEmptyInts(idx), "values": orEmpty(vs), "banks": orEmptyInts(ids), "zn": zn})
 	}
 	var rerr error
 	pan := catch(func() {
@@ -320,6 +339,7 @@ func driveRetainAcrossReads(c *driverCtx, run int) {
 	checkpoint := func(after string) {
 		var idx, ids []int
 		var vs []any
+		zn := []string{}
 		for i, k := range ks {
 			if k.closed {
 				continue
@@ -327,8 +347,9 @@ func driveRetainAcrossReads(c *driverCtx, run int) {
 			idx = append(idx, i+1)
 			vs = append(vs, safeProject(k.v))
 			ids = append(ids, bankID(k.bank))
+			zn = append(zn, zoneNames(k.v))
 		}
-		checkpoints = append(checkpoints, map[string]any{"after": after, "open": orEmptyInts(idx), "values": orEmpty(vs), "banks": orEmptyInts(ids)})
+		checkpoints = append(checkpoints, map[string]any{"after": after, "open": orEmptyInts(idx), "values": orEmpty(vs), "banks": orEmptyInts(ids), "zn": zn})
 	}
 	var rerr error
 	for rep := 0; rep < 2 && pan == "" && rerr == nil; rep++ {
@@ -390,6 +411,21 @@ type GCInnerLite struct {
 	LP []*SInner          `json:"lp"`
 	M  map[string]*string `json:"m"`
 	In *SInner            `json:"in"`
+	T  time.Time          `json:"t"`
+	PT *time.Time         `json:"pt"`
+}
+
+// zoneNames: the names of the zones of the record's times (reachable from the record like everything else)
+func zoneNames(v reflect.Value) string {
+	defer func() { recover() }()
+	g := v.Interface().(GCInnerLite)
+	zn, _ := g.T.Zone()
+	out := zn
+	if g.PT != nil {
+		z2, _ := g.PT.Zone()
+		out += "|" + z2
+	}
+	return out
 }
 
 func driveC10(c *driverCtx) error {
